@@ -305,6 +305,10 @@ func hash(outer, t types.Type, x value) int {
 		return x.hash(t)
 	case rtype:
 		return x.hash(t)
+	case sym:
+		return 7 // symbolic scalars: equality is decided by the solver, not by hashing
+	case symString:
+		return 11
 	}
 	panic(fmt.Sprintf("unhashable type %v", outer))
 }
